@@ -28,7 +28,7 @@ RULE = (
     "task class, merge, name, variant kind)"
 )
 ASSUMPTIONS = ["names are str", "the merge rule is truck,bus -> car and motorbike -> bicycle (statement)"]
-DECIDING = ["convert_label.checked", "convert_name.checked", "set_target_lists.checked", "C14.registered_names_enumerated", "C14.unregistered_checked", "C14.merge_checked", "C14.config_targets_checked", "C14.task_spelling_checked"]
+DECIDING = ["convert_label.checked", "convert_name.checked", "set_target_lists.checked", "C14.registered_names_enumerated", "C14.unregistered_checked", "C14.merge_checked", "C14.config_targets_checked", "C14.task_spelling_checked", "C14.frame_config_targets_checked"]
 JOBS = {"quick": 2, "thorough": 8}
 
 DOC_AUTOWARE = {
@@ -249,6 +249,16 @@ def run(ctx: Ctx) -> None:
             ctx.check(all(a is b for a, b in zip(cfg.target_labels, exp)) and len(exp) == len(cfg.target_labels), "C14/config_target_labels_differ_from_object_labels", dict(names=names, got=[str(x) for x in cfg.target_labels], expected=[str(x) for x in exp]), "set_target_lists")
             exp_m = [merged(AutowareLabel(DOC_NAME2LABEL[n.lower()])) if merge else AutowareLabel(DOC_NAME2LABEL[n.lower()]) for n in names]
             ctx.check(all(a is b for a, b in zip(cfg.target_labels, exp_m)), "C14/registered_name_not_documented_label", dict(names=names, got=[str(x) for x in cfg.target_labels], expected=[str(x) for x in exp_m]), "set_target_lists")
+            # the per-frame configurations resolve their own target lists with the evaluator's mapping too
+            from perception_eval.evaluation.result.perception_frame_config import CriticalObjectFilterConfig, PerceptionPassFailConfig
+
+            names_f = [n if r.random() < 0.5 else n.upper() for n in r.sample(pool, r.randint(1, 5))]
+            exp_f = [cfg.label_converter.convert_label(n).label for n in names_f]
+            crit = CriticalObjectFilterConfig(evaluator_config=cfg, target_labels=names_f, max_x_position_list=[50.0] * len(names_f), max_y_position_list=[50.0] * len(names_f))
+            pf = PerceptionPassFailConfig(evaluator_config=cfg, target_labels=names_f, matching_threshold_list=[2.0] * len(names_f))
+            for who, got_f in (("CriticalObjectFilterConfig", crit.target_labels), ("PerceptionPassFailConfig", pf.target_labels)):
+                ctx.count("C14.frame_config_targets_checked")
+                ctx.check(len(got_f) == len(exp_f) and all(a is b for a, b in zip(got_f, exp_f)), "C14/config_target_labels_differ_from_object_labels", dict(config=who, merge=merge, names=names_f, got=[str(x) for x in got_f], expected=[str(x) for x in exp_f]), "set_target_lists")
             ctx.case(("config", merge, len(names)), nontrivial=True)
         ctx.exhaustive["registered_names_x_tasks_x_merge_x_case_variants"] = not ctx.inconclusive
         ctx.notes["taps"] = taps.installed
